@@ -33,8 +33,6 @@ TABLE = [
     (r'^v[35]::codec::decode::decode_connect_packet$|^v5::codec::packet::connect::Connect::decode$', 'panic-call', r'^index!$', 'DERIVED',
      '&src.as_ref()[0..4] after ensure!(remaining >= 10) and a 2-byte read: 8 bytes remain', 1),
     (r'^v3::codec::decode::publish_size$|^v5::codec::packet::publish::Publish::packet_header_size$', 'assert', r'^BoundsCheck$', 'DERIVED', 'src[0], src[1] after `remaining() < 2 => return Ok(None)`', 2),
-    (r'^v3::codec::decode::publish_size$|^v5::codec::packet::publish::Publish::packet_header_size$', 'assert', r'^Overflow:Add$', 'DERIVED',
-     'u32::from(u16) + 2 (+ 2) <= 65539; v5: len + prop_len + pos with prop_len <= 0x0FFF_FFFF and pos <= 4 (C02.varint)', 4),
     (r'^v5::codec::packet::publish::Publish::packet_header_size$', 'panic-call', r'^index!$', 'GUARDED-INDEX', '&src[len..] after `remaining() < len => return Ok(None)` (checked: same value of len, no update in between)', 1),
     (r'^<v5::codec::packet::pubacks::PublishAck2? as std::default::Default>::default$', 'unwrap', r'.*', 'PROVEN', 'NonZeroU16::new(1).unwrap() on a literal', 1),
     (r'^utils::decode_variable_length_cursor$', 'assert', r'^Overflow:(Shl|Add)$', 'VARINT', 'shift in {0,7,14,21} and the sum of four 7-bit groups < 2^28: established by the C02.varint rule', 3),
@@ -60,10 +58,77 @@ def ub_operand(b, op, depth=0):
     width = {'u8': 8, 'u16': 16, 'u32': 32, 'u64': 64, 'usize': 64}.get(ty)
     best = (1 << width) - 1 if width else None
     ds = [d for d in b.whole_defs(p['l']) if d[0] in b.live]
+    if len(ds) > 1 and best is not None:
+        # `let mut len = base; if .. { len += c }`: every definition is a base value or one increment of the variable itself by
+        # a constant, none of them inside a loop: bound = largest base + sum of the increments
+        def add_of(d):
+            if d[2] != 'assign':
+                return None
+            rv = d[3]['rv']
+            if rv['k'] == 'bin' and rv['op'] in ('Add', 'AddWithOverflow'):
+                return rv
+            if rv['k'] == 'use':
+                q = op_place(rv['op'])
+                if q and [e for e in place_proj(q)] and len(place_proj(q)) == 1 and isinstance(place_proj(q)[0], dict) and str(place_proj(q)[0].get('f')) == '0':
+                    dq = [x for x in b.whole_defs(q['l']) if x[0] in b.live]
+                    if len(dq) == 1 and dq[0][2] == 'assign' and dq[0][3]['rv']['k'] == 'bin' and dq[0][3]['rv']['op'] == 'AddWithOverflow':
+                        return dq[0][3]['rv']
+            return None
+        base, inc, okm = [], 0, True
+        for d in ds:
+            if d[0] in b.reachable_after(d[0]):
+                okm = False
+                break
+            rv = add_of(d)
+            selfinc = None
+            if rv is not None:
+                pa, pb = op_place(rv['a']), op_place(rv['b'])
+                if pa and not place_proj(pa) and pa['l'] == p['l'] and const_val(rv['b']) is not None:
+                    selfinc = const_val(rv['b'])
+                elif pb and not place_proj(pb) and pb['l'] == p['l'] and const_val(rv['a']) is not None:
+                    selfinc = const_val(rv['a'])
+            if selfinc is not None:
+                inc += selfinc
+                continue
+            if d[2] == 'assign' and rv is not None:
+                ua, uc = ub_operand(b, rv['a'], depth + 1), ub_operand(b, rv['b'], depth + 1)
+                if ua is None or uc is None:
+                    okm = False
+                    break
+                base.append(ua + uc)
+            elif d[2] == 'assign' and d[3]['rv']['k'] in ('use', 'cast'):
+                u = ub_operand(b, d[3]['rv']['op'], depth + 1)
+                if u is None:
+                    okm = False
+                    break
+                base.append(u)
+            else:
+                okm = False
+                break
+        if okm and base:
+            best = min(best, max(base) + inc)
+        return best
     if len(ds) == 1:
         d = ds[0]
         if d[2] == 'assign':
             rv = d[3]['rv']
+            q_ = op_place(rv['op']) if rv['k'] == 'use' else None
+            if q_ is not None and place_proj(q_):
+                # a component of the value decode_variable_length() returned: (value < 2^28, bytes consumed <= 4) - C02.varint
+                flds = [e for e in place_proj(q_) if isinstance(e, dict) and 'f' in e]
+                og_ = Origin(b, transparent=re.compile(TRANSPARENT_CALLS.pattern[:-2] + r'|branch)$')).of_operand({'cp': {'l': q_['l']}})
+                calls_ = {l[1] for l in og_ if l[0] == 'call' and not re.search(r'::branch$', l[1] or '')}
+                if flds and calls_ and all(re.search(r'^utils::decode_variable_length(_cursor)?$', c_ or '') for c_ in calls_) and not any(l[0] not in ('call',) for l in og_):
+                    lim_ = {'0': 0x0FFFFFFF, '1': 4}.get(str(flds[-1]['f']))
+                    if lim_ is not None:
+                        best = lim_ if best is None else min(best, lim_)
+            if q_ is not None and len(place_proj(q_)) == 1 and isinstance(place_proj(q_)[0], dict) and str(place_proj(q_)[0].get('f')) == '0':
+                # result component of a checked addition: a + b
+                dq_ = [x for x in b.whole_defs(q_['l']) if x[0] in b.live]
+                if len(dq_) == 1 and dq_[0][2] == 'assign' and dq_[0][3]['rv']['k'] == 'bin' and dq_[0][3]['rv']['op'] == 'AddWithOverflow':
+                    ua_, uc_ = ub_operand(b, dq_[0][3]['rv']['a'], depth + 1), ub_operand(b, dq_[0][3]['rv']['b'], depth + 1)
+                    if ua_ is not None and uc_ is not None:
+                        best = ua_ + uc_ if best is None else min(best, ua_ + uc_)
             if rv['k'] == 'use':
                 u = ub_operand(b, rv['op'], depth + 1)
                 if u is not None:
@@ -96,6 +161,11 @@ def ub_operand(b, op, depth=0):
                 best = (1 << 63) - 1
             if nm.endswith('convert::From<u16>>::from') or nm.endswith('from_be_bytes') and ty == 'u16':
                 best = 65535 if best is None else min(best, 65535)
+            m_ = re.search(r'<impl std::convert::From<(u8|u16|u32)> for \w+>::from$', nm)
+            if m_:
+                u_ = ub_operand(b, d[3]['args'][0], depth + 1) if d[3].get('args') else None
+                w_ = (1 << {'u8': 8, 'u16': 16, 'u32': 32}[m_.group(1)]) - 1
+                best = min(x for x in (best, u_, w_) if x is not None)
     return best
 
 
